@@ -1249,3 +1249,107 @@ pub fn gen_lit_string_in(ch: &mut Chooser, nasty: bool, xml_only: bool) -> Strin
         })
         .collect()
 }
+
+// ---------------------------------------------------------------------------------------------
+// mutable traversal and the non-finite constant filter
+
+/// Pre-order traversal; `f` returns true when it replaced the node (children are then skipped).
+pub fn map_expr(e: &mut E, f: &mut dyn FnMut(&mut E) -> bool) {
+    if f(e) {
+        return;
+    }
+    match e {
+        E::Prop(a, ..) | E::Un(_, a) | E::Cast(a, _) | E::IsEmpty(a) | E::Paren(a) | E::AssignLocal(_, a) => map_expr(a, f),
+        E::Bin(_, a, b) | E::Max(a, b) | E::Min(a, b) | E::Arg(a, b) | E::Subscript(a, b) | E::AssignProp(a, _, b) | E::AssignSubscript(_, a, b) => {
+            map_expr(a, f);
+            map_expr(b, f);
+        }
+        E::Ternary(a, b, c) => {
+            map_expr(a, f);
+            map_expr(b, f);
+            map_expr(c, f);
+        }
+        E::Array(xs) | E::ConsoleLog(_, xs) => xs.iter_mut().for_each(|x| map_expr(x, f)),
+        E::CallMethod(o, _, xs, _) => {
+            map_expr(o, f);
+            xs.iter_mut().for_each(|x| map_expr(x, f));
+        }
+        _ => {}
+    }
+}
+
+pub fn map_stmt(s: &mut S, f: &mut dyn FnMut(&mut E) -> bool) {
+    match s {
+        S::Expr(e) => map_expr(e, f),
+        S::Decl(_, _, _, Some(e)) => map_expr(e, f),
+        S::Block(ss) => ss.iter_mut().for_each(|x| map_stmt(x, f)),
+        S::If(c, a, b) => {
+            map_expr(c, f);
+            map_stmt(a, f);
+            if let Some(b) = b {
+                map_stmt(b, f);
+            }
+        }
+        S::Switch(v, cases, def) => {
+            map_expr(v, f);
+            for (l, b) in cases {
+                map_expr(l, f);
+                b.iter_mut().for_each(|x| map_stmt(x, f));
+            }
+            if let Some((_, b)) = def {
+                b.iter_mut().for_each(|x| map_stmt(x, f));
+            }
+        }
+        S::Return(Some(e)) => map_expr(e, f),
+        _ => {}
+    }
+}
+
+fn literal_only(e: &E) -> bool {
+    match e {
+        E::Int(..) | E::UInt(..) | E::Float(..) | E::Bool(_) => true,
+        E::Paren(a) | E::Un(_, a) => literal_only(a),
+        E::Cast(a, t) => t.is_numeric() && literal_only(a),
+        E::Bin(_, a, b) | E::Max(a, b) | E::Min(a, b) => literal_only(a) && literal_only(b),
+        _ => false,
+    }
+}
+
+/// Replaces every literal-only numeric sub-tree that folds to a non-finite double (`1.0 / 0.0`,
+/// `2.5 % 0.0`) by `1.5`: such constants are printed as `inf` / `NaN` in the support code (known
+/// finding of C16, probed there); they may sit in branches no state executes. Returns the count.
+pub fn avoid_nonfinite_constants(p: &mut Program) -> usize {
+    fn eval_lit(e: &E) -> Result<V, Undef> {
+        let mut objs: Vec<ObjState> = vec![];
+        let mut it = Interp { objs: &mut objs, this: 0, locals: vec![], trace: vec![], reads: vec![], steps: 0 };
+        it.eval(e)
+    }
+    let mut total = 0;
+    for _ in 0..6 {
+        let mut n = 0;
+        // minimal offenders only: a double arithmetic node whose operands are fine but whose own
+        // result is not finite (its static type is double, so the replacement is well-typed)
+        let mut f = |e: &mut E| -> bool {
+            let E::Bin(op, a, b) = &*e else { return false };
+            if !matches!(op, BinOp::Add | BinOp::Sub | BinOp::Mul | BinOp::Div | BinOp::Rem) || !literal_only(e) {
+                return false;
+            }
+            let fine = |x: &E| matches!(eval_lit(x), Ok(V::Double(d)) if d.is_finite());
+            if fine(a) && fine(b) && matches!(eval_lit(e), Err(Undef::NonFinite)) {
+                *e = E::Float(1.5, "1.5".into());
+                n += 1;
+                return true;
+            }
+            false
+        };
+        match &mut p.body {
+            Body::Expr(e) => map_expr(e, &mut f),
+            Body::Block(ss) => ss.iter_mut().for_each(|s| map_stmt(s, &mut f)),
+        }
+        total += n;
+        if n == 0 {
+            break;
+        }
+    }
+    total
+}
